@@ -14,15 +14,41 @@ const c07TestSrc = `package hostsfile_test
 
 import (
 	"fmt"
+	"net/netip"
 	"slices"
+	"strings"
 	"testing"
 
 	"github.com/AdguardTeam/golibs/hostsfile"
+	"github.com/AdguardTeam/golibs/netutil"
 )
+
+// govcWellFormed: the grammar of the property text: after removing a '#'
+// comment, space/tab separated fields, an address accepted by netip.ParseAddr
+// and one or more names accepted by ValidateDomainName.
+func govcWellFormed(line string) (addr netip.Addr, names []string, ok bool) {
+	if i := strings.IndexByte(line, '#'); i >= 0 {
+		line = line[:i]
+	}
+	f := strings.FieldsFunc(line, func(r rune) bool { return r == ' ' || r == '\t' })
+	if len(f) < 2 {
+		return addr, nil, false
+	}
+	addr, err := netip.ParseAddr(f[0])
+	if err != nil {
+		return addr, nil, false
+	}
+	for _, n := range f[1:] {
+		if netutil.ValidateDomainName(n) != nil {
+			return addr, nil, false
+		}
+	}
+	return addr, f[1:], true
+}
 
 func TestGovcReplay(t *testing.T) {
 	addrs := []string{"1.2.3.4", "::1", "::ffff:1.2.3.4", "fe80::1%%eth0", "2001:db8::1", "256.1.1.1", "host"}
-	names := []string{"a", "a.example", "A.Example", "xn--e1afmkfd.example", "_srv.example", "a.123", "-x", "123"}
+	names := []string{"a", "a.example", "A.Example", "xn--e1afmkfd.example", "_srv.example", "a.123", "-x", "123", "a\vb.example", "a.example\fb"}
 	seps := []string{" ", "\t", "  ", " \t "}
 	tails := []string{"", " ", " # comment", "#c", "\t#"}
 	maxNames := %d
@@ -31,7 +57,15 @@ func TestGovcReplay(t *testing.T) {
 	check := func(line string) {
 		cases++
 		r := &hostsfile.Record{}
-		if err := r.UnmarshalText([]byte(line)); err != nil {
+		err := r.UnmarshalText([]byte(line))
+		wa, wn, wok := govcWellFormed(line)
+		if (err == nil) != wok || (wok && (r.Addr != wa || !slices.Equal(r.Names, wn))) {
+			fails++
+			if fails <= 8 {
+				fmt.Printf("GOVC-BOUNDED-FAIL UnmarshalText(%%q) = {%%v %%q} err=%%v; the grammar says well-formed=%%v {%%v %%q}\n", line, r.Addr, r.Names, err, wok, wa, wn)
+			}
+		}
+		if err != nil {
 			return
 		}
 		accepted++
@@ -78,8 +112,8 @@ func c07Bounded(eng *Engine, tier string, seed int64) *BoundedResult {
 	}
 	out := runHarness(repoDir(), filepath.Join(repoDir(), "hostsfile"), fmt.Sprintf(c07TestSrc, maxNames))
 	res := &BoundedResult{
-		What:  "for every line of the enumeration that Record.UnmarshalText accepts: MarshalText succeeds and its output parses to a record with the same address and the same names (real code)",
-		Bound: fmt.Sprintf("lines of an address (7 forms incl. zoned, IPv4-mapped, invalid) followed by at most %d names (8 forms incl. upper case, punycode, invalid) with 4 kinds of separators, 3 leading and 5 trailing forms (spaces, tabs, comments)", maxNames),
+		What:  "for every line of the enumeration: Record.UnmarshalText accepts it iff a reference reading of the grammar (fields separated by space/tab after the comment, netip.ParseAddr, ValidateDomainName) calls it well-formed, with that address and those names; for every accepted line: MarshalText succeeds and its output parses to a record with the same address and the same names (real code)",
+		Bound: fmt.Sprintf("lines of an address (7 forms incl. zoned, IPv4-mapped, invalid) followed by at most %d names (10 forms incl. upper case, punycode, invalid, form feed / vertical tab inside) with 4 kinds of separators, 3 leading and 5 trailing forms (spaces, tabs, comments)", maxNames),
 	}
 	parseBounded(out, res)
 	return res
